@@ -203,6 +203,26 @@ func isoShapes(scratch string, rng *rand.Rand, n int) []*isoShape {
 		c.Recommends, c.Suggests = []string{"logrotate", "cron"}, []string{"cron", "bash"}
 		c.DebBreaks = []string{"libold (<< 2)"}
 	}, "")
+	// the generated Debian changelog and a shipped file at its path (deb refuses; nothing it did may be seen by the others)
+	mk("changelog-clash", func(c *Cfg, n *[]Node) {
+		c.Changelog = []ChEntry{{"1.2.3", 1500000000, "Jane Doe <jane@example.org>", []string{"note"}}}
+		c.Entries = append(c.Entries, Entry{Type: "file", Src: "src/app.conf", Dst: "/usr/share/doc/isopkg/changelog.Debian.gz"})
+	}, "")
+	// lists that lost an item at parse time (a reference to a variable that is not set): their backing arrays have spare room
+	mk("spare-capacity-lists", func(c *Cfg, n *[]Node) {
+		c.Depends = []string{"${VERIF_UNSET_DEP}", "libfoo", "libbar", "${VERIF_UNSET_TOO}"}
+		c.Provides, c.Conflicts = []string{"virt", "${VERIF_UNSET_DEP}"}, []string{"${VERIF_UNSET_DEP}", "old-one"}
+		c.IpkPredepends, c.DebPredepends = []string{"busybox"}, []string{"dpkg"}
+		c.Recommends = []string{"rec-a", "${VERIF_UNSET_DEP}", "rec-b"}
+	}, "")
+	// a directory entry whose file_info is complete (owner, group, mode, mtime): nothing is left to default
+	mk("complete-fileinfo", func(c *Cfg, n *[]Node) {
+		full := Fi{Owner: "app", Group: "grp", Mode: 0o750, Mt: 1300000000}
+		c.Entries = append(c.Entries, Entry{Type: "dir", Dst: "/var/lib/isopkg/full", Fi: full, HasFi: true},
+			Entry{Type: "file", Src: "src/app.conf", Dst: "/etc/isopkg/full.conf", Fi: full, HasFi: true},
+			Entry{Type: "symlink", Src: "/etc/isopkg/full.conf", Dst: "/etc/isopkg/full.lnk", Fi: full, HasFi: true},
+			Entry{Type: "ghost", Dst: "/var/log/isopkg-full.log", Fi: full, HasFi: true})
+	}, "")
 	// a payload file above every buffer / block threshold a packager may special-case (1 MiB and a bit)
 	mk("large-file", func(c *Cfg, n *[]Node) {
 		b := bytes.Repeat([]byte("0123456789abcdef0123456789ABCDEF0123456789abcdef0123456789ABCDE\n"), (1<<20)/64+3)
@@ -229,6 +249,12 @@ func isoShapes(scratch string, rng *rand.Rand, n int) []*isoShape {
 		td := repoDir + "/internal/sign/testdata/"
 		mk("signed", func(c *Cfg, n *[]Node) {
 			c.DebSigKey, c.RpmSigKey, c.ApkSigKey, c.ApkSigKeyName = td+"privkey_unprotected.asc", td+"privkey_unprotected.asc", td+"rsa_unprotected.priv", "origin"
+		}, "")
+		out[len(out)-1].signed = true
+		n++
+		mk("signed-dpkg-sig", func(c *Cfg, n *[]Node) {
+			c.DebSigKey, c.DebSigMethod, c.RpmSigKey, c.RpmSigKeyID = td+"privkey_unprotected.asc", "dpkg-sig", td+"privkey_unprotected.asc", "bc8acdd415bd80b3"
+			c.ApkSigKey, c.ApkSigKeyName = td+"rsa_unprotected.priv", "origin"
 		}, "")
 		out[len(out)-1].signed = true
 		n++
@@ -346,7 +372,7 @@ func permutations(xs []string) [][]string {
 func famIso(tr *Trace, scratch string, seed int64, tier string, workers int, behaviours string) M {
 	os.Unsetenv("SOURCE_DATE_EPOCH")
 	rng := rand.New(rand.NewSource(seed + 99))
-	nshapes := 18
+	nshapes := 21
 	maxLen := 2
 	if tier == "thorough" {
 		nshapes, maxLen = 40, 3
@@ -521,7 +547,7 @@ func famIso(tr *Trace, scratch string, seed int64, tier string, workers int, beh
 func famConc(tr *Trace, scratch string, seed int64, tier string) M {
 	os.Unsetenv("SOURCE_DATE_EPOCH")
 	rng := rand.New(rand.NewSource(seed + 7))
-	nshapes, iters := 17, 12
+	nshapes, iters := 20, 12
 	if tier == "thorough" {
 		nshapes, iters = 20, 40
 	}
